@@ -125,7 +125,72 @@ CLAIMS["C39"] = (
     "streaming path in client_conn.go are outside the subset and not under contract.",
     "DESIGN.md section 4, C39")
 
+CLAIMS["C26"] = (
+    "The sliding-window breaker against an abstract view (viewAt(s) = errors recorded at second s that the window remembers), proved once per "
+    "window size W = 1..8 (the property's own range; sums expand to W terms) and for every timestamp, gap, threshold and count: "
+    "NewSlidingWindow is enabled exactly for positive size and threshold and starts empty; slide forgets exactly the seconds before the new "
+    "start (loop invariant) and keeps the running total equal to the sum of the buckets; Trigger(now) adds one to second now, leaves every "
+    "other second of (now-W, now] as recorded, and returns true iff the sum of the view over (now-W, now] reaches the threshold; a disabled "
+    "window never fires and is unchanged (representation invariant: distinct bucket objects, non-negative counts, total = sum, nothing "
+    "recorded after the latest timestamp). Slice.TryFuse hands only connection errors (mysql.ConnTypeError) to the window and marks the "
+    "replica down exactly when the window fires (call-site obligations and postconditions).",
+    "Assumed: timestamps are non-decreasing and within [0, 2^62), fewer than 2^62 errors per window (preconditions); sync.Mutex makes Trigger "
+    "atomic; the interface call FuseStrategy.Trigger is represented by a frame-only contract (its one implementation, SlidingWindow.Trigger, "
+    "is verified against the same frame). 'The view equals the true event log restricted to the trailing window' is induction over the "
+    "history from the per-call contract (meta-argument, not mechanised). Window sizes above 8 are not covered.",
+    "DESIGN.md section 4, C26")
+
+CLAIMS["C27"] = (
+    "Hard policy: AllowRecovery answers yes exactly when the clock read is at least lastFuseTime + coolingPeriod; a probe round "
+    "(checkWithHardRecovery) turns a down replica up only after AllowRecovery said yes in that round (every return path, including the "
+    "master-down shortcut, fixed in /repo), and does turn it up when the probe passed, the master is up, replication is fine and recovery "
+    "is allowed; TryFuse stamps lastFuseTime with the current second at every fuse, also when the replica is already down. Gradual policy: "
+    "AllowRecovery says yes only with the skip counter at 0 and otherwise consumes one skip; the penalty is min(n(n+1)/2, 120) of the "
+    "bad-recovery count and monotone in it (lemma); a failed probe of a down replica re-arms the counter; a fuse within 2 ping periods of the "
+    "last recovery increments the bad-recovery count, a later one resets it; a probe round turns a down replica up only when the counter had "
+    "run out. TryRecover dispatches each policy to its round function.",
+    "Trusted: time.Now is monotone (ghost clock), sync/atomic and sync2.AtomicInt64 as sequential cells (verified as such); assumed callee "
+    "contract: checkInstanceStatus (the probe I/O) stamps lastChecked or leaves it; GetSlaveStatus writes nothing of the node. The history "
+    "quantifier (every interleaving of fuses, probes and clock advances) is induction over these per-operation contracts (meta-argument); "
+    "concurrent probe and fuse on one node are not modelled.",
+    "DESIGN.md section 4, C27")
+
+CLAIMS["C28"] = (
+    "Per probe round, for replicas without policy, with hard and with gradual policy (postconditions over the round's observations): the "
+    "down-after decision is taken after this round's probe and with the configured period; a node that has not passed a probe for that period "
+    "is marked down; otherwise, with the master up, replication trouble (lag above the limit, a stopped IO/SQL thread, a failing SHOW SLAVE "
+    "STATUS) marks it down, a passed probe marks a down replica up (subject to C27), a failed probe leaves it as it is. checkSlaveSyncStatus: "
+    "alive iff the limit is 0, there is no connection, the server is to be skipped, or lag <= limit and both threads are 'Yes'. "
+    "ShouldDownAfterNoAlive: true iff now - lastChecked >= period. 'No other event changes a node's status': outside SetStatusUp / "
+    "SetStatusDown and the policy initialisation no function of packages backend and proxy/server stores to a NodeInfo field or lets its "
+    "address escape (type-level frame, one obligation per store site). Recorded finding: with the master down a down replica is marked up "
+    "even when its own probe failed in that round.",
+    "Not under contract: the ticker loops (select, goroutines) and the master's own round inside checkBackendMasterStatus, checkInstanceStatus "
+    "(probe I/O, retries) and GetSlaveStatus (result parsing) -- assumed frames, listed in the evidence; that SetStatusUp/Down are called only "
+    "from the round functions and TryFuse is read from the call structure, not mechanised. The history quantifier is induction over rounds "
+    "(meta-argument).",
+    "DESIGN.md section 4, C28")
+
+CLAIMS["C35"] = (
+    "IsClientIPAllowed returns true iff the allow-list is empty or some entry matches the address (loop invariant, any list length); an entry "
+    "matches by containment when it was configured as a CIDR block and by address equality otherwise (IPInfo.Match, ParseIPInfo: a text that "
+    "parses as CIDR becomes a block with exactly that network, else an address, else an error); parseAllowIps lists exactly the non-blank "
+    "configured entries after trimming (every entry is present, nothing else is) or rejects the whole list when one does not parse.",
+    "Trusted: net.ParseCIDR, net.ParseIP, (*net.IPNet).Contains, net.IP.Equal and strings.TrimSpace as uninterpreted functions -- prefix "
+    "matching and the IPv4 / IPv4-mapped equivalence are the standard library's and are not proved here; Session.IsAllowConnect (remote "
+    "address parsing) is not under contract.",
+    "DESIGN.md section 4, C35")
+
 NA = {
+ "C02": "not applicable to contract-based verification here: the oracle is the result of executing SQL on data (what one MySQL holding all shards would return); no contract within reach expresses an SQL execution semantics, and the rewriter is ~3k lines of visitors over TiDB AST types (DESIGN.md section 5)",
+ "C06": "not applicable: the property compares a token pre-check with the decision of the yacc-generated parser; the specification is that parser (tables + hand-written lexer), which is outside the verifier's subset (DESIGN.md section 5)",
+ "C17": "not applicable: SplitStatementToPieces is a thin loop over the parser's Scanner; the property is the scanner's tokenisation of strings and comments against the SQL grammar, an artefact no contract here can state (DESIGN.md section 5)",
+ "C20": "not applicable: quantifies over interleavings of several clients on pooled connections against a MySQL server's session-variable semantics; neither the backend model nor the interleaving is expressible per function (DESIGN.md section 5)",
+ "C22": "not applicable: the decision is made on strings-tokenised text against the grammar's notion of locking reads and comments; the oracle is the grammar (DESIGN.md section 5)",
+ "C24": "not applicable: explicitly about interleavings at atomic-step granularity; sequential contracts are silent on schedules and the verifier models no concurrency (DESIGN.md section 5)",
+ "C32": "not applicable: two-phase exchange implemented with goroutines, WaitGroup and channels across processes; outside the sequential subset of the verifier (DESIGN.md section 5)",
+ "C36": "not applicable: 700-line fingerprint lexer against 'differs only in literals, spacing, case, comments' relative to the SQL grammar; metamorphic property whose oracle is the grammar (DESIGN.md section 5)",
+ "C38": "not applicable: whole-process liveness / crash freedom that holds because of a recover far from the panicking decoders; per-function no-panic contracts would demand more than the property states (false alarms) and termination is not provable here (DESIGN.md section 5)",
 }
 
 TECH = "contract-based deductive verification: go/ssa weakest-precondition VCs discharged by z3/cvc5"
